@@ -43,9 +43,9 @@ def gen(ctx, rng):
         nz = int(round(zshare * n))
         if nz:
             x[rng.choice(n, size=nz, replace=False)] = 0.0
-        # the nodata value may be positive (255, 32767: the customary markers of unsigned / int16 rasters): a nodata cell is not a
+        # the nodata value may be positive (32767, the customary marker of int16 rasters; 255 / 65535 for unsigned ones): a nodata cell is not a
         # rainfall amount and must not enter the fit
-        nd = [-9999.0, -9999.0, 32767.0, -9999.0, 255.0][it % 5]
+        nd = [-9999.0, -9999.0, 32767.0, -9999.0, 32767.0][it % 5]      # (not 255: an index of 255 is a legitimate result and could not be told from nodata)
         x[x == nd] -= 1.0
         miss = rng.random(n) < rng.choice([0.0, 0.1, 0.3]) if nd < 0 else rng.random(n) < rng.choice([0.1, 0.3])
         if miss.sum() > n - 3:
